@@ -1,6 +1,7 @@
 package dsim
 
 import (
+	"crypto/tls"
 	"fmt"
 	"io"
 	"sort"
@@ -41,6 +42,8 @@ type srvCfg struct {
 	stallPct   int  // % of synchronous answers whose transport write stalls until resumed
 	largePct   int  // % of requests (hence echoed answers) larger than the 1 KiB pooled write buffer
 	lazyResume bool // stalled writes are resumed reluctantly, so that several pile up
+	nilHandler bool // the Server (and dialled connections) get a nil Handler: diam.DefaultServeMux serves
+	tlsStall   bool // one more peer connects over TLS and never gets through its handshake
 	force      *srvForce // enumerated fault placement (sweep)
 	hdr        *hdrForce // enumerated request header (C16 sweep)
 }
@@ -101,6 +104,7 @@ type peerConn struct {
 	dc diam.Conn // the diam.Conn of this connection once known
 	guaranteed int // stream bytes the library is known to have received (after a reset: those read before it)
 	wasReset bool
+	tls      bool // served through crypto/tls; the peer never completes the handshake
 }
 
 type invocation struct {
@@ -182,6 +186,11 @@ func (r refRegs) sel(app, code uint32, isReq bool) string {
 
 func newSrvWorld(e *Env, cfg srvCfg) *srvWorld {
 	w := &srvWorld{e: e, cfg: cfg, mux: diam.NewServeMux(), lis: newSimListener(e), serveRet: make(chan error, 1)}
+	if cfg.nilHandler {
+		// "Handler is typically nil, in which case the DefaultServeMux is used": a fresh one per run
+		diam.DefaultServeMux = w.mux
+		e.Probe("default-serve-mux")
+	}
 	w.regs = refRegs{idx: map[[3]uint32]string{}, name: map[string]string{}}
 	return w
 }
@@ -527,18 +536,33 @@ func genMalformedKind(t *Tape, conn, k int, forced int) (string, []byte) {
 
 func (w *srvWorld) start() {
 	srv := &diam.Server{Handler: w.mux, Dict: simDict()}
+	if w.cfg.nilHandler {
+		srv.Handler = nil
+	}
 	go func() { w.serveRet <- srv.Serve(w.lis) }()
 }
 
 func (w *srvWorld) connect(pc *peerConn) {
 	pc.connected = true
 	if pc.dialled {
-		c, err := diam.NewConn(pc.sc, "sim:3868", w.mux, simDict())
+		var h diam.Handler = w.mux
+		if w.cfg.nilHandler {
+			h = nil
+		}
+		c, err := diam.NewConn(pc.sc, "sim:3868", h, simDict())
 		if err != nil {
 			w.e.Harness("NewConn: %v", err)
 		}
 		pc.dc = c
 		w.e.Act("dial", "%s", pc.name)
+		return
+	}
+	if pc.tls {
+		// a TLS peer whose handshake never completes (it sends nothing, or the start of a record)
+		w.lis.Connect(tls.Server(pc.sc, &tls.Config{}))
+		w.e.Act("connect-tls", "%s", pc.name)
+		w.e.Fault("tls-peer-stalls-in-handshake")
+		w.e.Probe("tls-handshake-stalled")
 		return
 	}
 	w.lis.Connect(pc.sc)
@@ -617,6 +641,13 @@ func (w *srvWorld) runInner() {
 	}
 	if cfg.lateConn {
 		w.conns = append(w.conns, w.genConn(total, false, true))
+	}
+	if cfg.tlsStall {
+		i := len(w.conns)
+		pc := &peerConn{idx: i, name: fmt.Sprintf("c%d", i), faultAt: -1, tls: true}
+		pc.sc = newSimConn(e, pc.name, drawAddr(t, 3868), drawAddr(t, 42000+i))
+		pc.stream = [][]byte{{}, {0x16}, {0x16, 0x03, 0x01, 0x02}, {0x16, 0x03, 0x01, 0x00, 0x40, 0x01, 0x00}}[t.Draw(4)]
+		w.conns = append(w.conns, pc)
 	}
 	if cfg.yields {
 		w.installYields()
